@@ -31,16 +31,65 @@ from harness.core import Ctx, Driver, InfraError
 ID = "C03"
 CLAIM = {
     "technique": "Lean 4 proof over an executable model of the name-layout pipeline and of the semantics of the "
-                 "generated loader/dumper code + model/code correspondence at three levels",
-    "text": "(filled at the end of this file)",
-    "note": "",
+                 "generated loader/dumper code + model/code correspondence at three levels + direct oracle",
+    "text": (
+        "Proved in Lean for all schemas, shapes, crowns, data, debug modes, coercion modes and extra policies "
+        "(no bound on sizes or nesting): the mapping step of the code equals the documented path rule `pathOf` "
+        "(code_path_is_documented_path) with map > name_style/trim/as_list, skip > only, first map entry wins, earlier "
+        "name_mapping providers and child classes override later ones / parents, maps concatenated; the crown the "
+        "provider builds (sort + group-by builder, gap filling, decoration) has a field leaf at path p iff a field of the "
+        "shape has pathOf = p, all other leaves being gap fillers at list positions (crown_places_fields, "
+        "out_crown_places_fields); the semantics of the generated loader reaches the constructor call iff the datum has "
+        "the shape the crown asks for, and then passes for every field leaf exactly loader(value at the leaf's path) / the "
+        "default of an absent optional field / nothing else, identically in the three debug modes "
+        "(loader_refines_reading, loadCrown_reads_exact_path, loadCrown_args_only_from_paths, load_reads_documented_path); "
+        "ExtraSkip ignores unknown keys, ExtraForbid rejects them with exactly the unknown key set, collecting policies "
+        "deliver exactly the unknown items (key and value untouched) in a skeleton mirroring nested nodes; a missing "
+        "required key of a flat layout is reported with exactly the missing keys; the generated dumper writes every "
+        "extracted field at the path of its leaf, omits an omit_default field iff its raw value equals the default "
+        "(identity for None/True/False, == otherwise), writes None at gaps and no key outside the crown; dumping then "
+        "loading through the same crown returns the field values (dump_load_roundtrip)."
+    ),
+    "note": (
+        "The theorems are about the hand-written Lean model; it is tied to /repo on every run by correspondences "
+        "(real BuiltinNameLayoutProvider crowns vs the model's, real compiled loaders/dumpers vs loadModel/dumpModel on "
+        "systematic inputs for hand-made crowns and for real dataclass/TypedDict/class models with name_mapping "
+        "recipes, 3 debug_trail x 2 strict_coercion) and by a Lean-independent direct oracle built from a Python "
+        "transcription of the documented rule. omit_default is modelled with the repaired comparison "
+        "(fixes/C03-omit-default-compare.patch); with ExtraKwargs and nested layouts the known branch keys reach "
+        "**kwargs (known finding, negation proved as extra_kwargs_only_unknown_fails, flat case proved). Not proved: "
+        "well-formedness of built output crowns (distinct keys) is a hypothesis of the dumper theorems and is checked "
+        "by the correspondence; name style conversion is an abstract function; predicates are truth tables (C10); "
+        "constructor-call planning is C08."
+    ),
     "design_ref": "DESIGN.md §4 C03",
 }
 PROPS_FILE = "AdaptixProofs/Props/C03.lean"
 LEAN_TARGETS = ["AdaptixProofs.Props.C03", "drv_c03"]
-RULE = ""
-ASSUMPTIONS: list = []
-TRUSTED: list = []
+RULE = ("programs = (model, name_mapping recipe) pairs with 1-5 fields over dataclass (incl. inheritance) / TypedDict / class with "
+        "**kwargs, and hand-made (shape, crown, extra move) triples; per program the systematic inputs: valid datum, each "
+        "leaf absent / ill-typed, each container node replaced by 7-9 wrong kinds / emptied / shortened / a str, unknown "
+        "keys and extra items at each node, 2-3 fault combinations; x 3 debug_trail x 2 strict_coercion. A case is "
+        "non-trivial when it is not the plain valid datum of a failed-creation program")
+ASSUMPTIONS = [
+    "input data are JSON-like: None/bool/int/str/list/dict with str keys, plus opaque objects without __getitem__/.get "
+    "(a dict with integer keys or a user Mapping with raising methods is outside the model)",
+    "field loaders/dumpers, saturator and extractor are total, mode independent parameters; predicates of name_mapping are "
+    "given as truth tables over the fields (predicate semantics is C10, routing of map entries C09)",
+    "unknown keys of a *nested* dict node are delivered at the mirrored position of the extra mapping (the upstream test "
+    "suite pins this skeleton for ExtraTargets); 'exactly the unknown keys' is read per dict node. For ExtraKwargs, where "
+    "the keys become keyword arguments, the branch keys are reported as a known finding",
+    "omit_default 'equals its default' is read with the generated code's comparison: identity for the None/True/False "
+    "literals, Python == otherwise, applied to the raw field value (repaired behaviour)",
+    "the Python compiler / exec of the generated source is trusted; the model gives the meaning of the generated code "
+    "construct by construct and the gen-load / gen-dump correspondences validate it per generated program",
+]
+TRUSTED = [
+    "well-formedness of output crowns built by the provider (distinct keys per dict node, sieves on field children, "
+    "required fields at list positions) is a hypothesis of dumpCrown_writes_exact_path / dump_load_roundtrip; "
+    "validated by the layout-out and model-dump correspondences, not proved",
+    "Python str ordering = Lean String ordering by code point (crown builder's sort), validated by the layout correspondence",
+]
 
 # ---------------------------------------------------------------------------
 # value encoding (Val of Layout/Basic.lean)
@@ -2142,7 +2191,8 @@ def suite_gen_dump(ctx: Ctx, real: Real, drv, n_programs: int, n_combo: int):
                 dumpers[mode] = cr.dumper(prog, mode)
             except Exception as e:  # noqa: BLE001
                 dumpers[mode] = None
-                ctx.fail("omit-default:dumper-creation-" + type(e).__name__,
+                ctx.fail("omit-default:unhashable-default-typeerror" if "unhashable" in repr(e)
+                         else "gen-dump:dumper-creation-" + type(e).__name__,
                          f"no dumper can be generated for a valid layout with omit_default sieves: {e!r}",
                          {"suite": "gen-dump", "prog": prog, "mode": mode, "label": "creation", "obj": {}, "extract": None})
         if dumpers[mode] is None:
@@ -2609,7 +2659,8 @@ def replay(ctx: Ctx, case) -> bool:
         try:
             dumper_fn = cr.dumper(prog, case["mode"])
         except Exception as e:  # noqa: BLE001
-            ctx.fail("omit-default:dumper-creation-" + type(e).__name__, f"no dumper can be generated: {e!r}", case)
+            ctx.fail("omit-default:unhashable-default-typeerror" if "unhashable" in repr(e)
+                     else "gen-dump:dumper-creation-" + type(e).__name__, f"no dumper can be generated: {e!r}", case)
             return True
         if case.get("label") != "creation":
             obj = {k: dec_val(v) for k, v in case["obj"].items()}
